@@ -18,6 +18,10 @@ mod difference {
     include!("/repo/derive/src/difference.rs");
     pub fn used_lifetimes_of(t: &crate::parse::Type) -> Vec<String> { get_used_lifetimes(t) }
     pub fn array_lens_of(t: &crate::parse::Type) -> Vec<String> { get_array_lens(t) }
+    /// the whole expansion, for the item headers (coq/parse/ParseHeader.v)
+    pub fn expand(d: &crate::parse::Data) -> proc_macro::TokenStream {
+        match d { crate::parse::Data::Struct(s) => derive_struct_diff_struct(s), crate::parse::Data::Enum(e) => derive_struct_diff_enum(e), _ => proc_macro::TokenStream::new() }
+    }
 }
 use parse::{Category, ConstValType, Data, Type};
 use proc_macro::{Delimiter, TokenStream, TokenTree};
@@ -143,6 +147,82 @@ fn field_type_tokens(body: TokenStream) -> Vec<(String, Vec<TokenTree>)> {
     out
 }
 
+/// first keyword of an item: attributes and `pub` skipped
+fn item_kind(cur: &[TokenTree]) -> String {
+    let mut i = 0;
+    while i < cur.len() {
+        match (&cur[i], cur.get(i + 1)) {
+            (TokenTree::Punct(p), Some(TokenTree::Group(_))) if p.as_char() == '#' => i += 2,
+            (TokenTree::Ident(id), _) if id.to_string() == "pub" => i += 1,
+            (TokenTree::Ident(id), _) => return id.to_string(),
+            _ => return String::new(),
+        }
+    }
+    String::new()
+}
+/// `#[serde(bound = "..")]`: the string literal is replaced by a brace group holding the tokens of its content
+fn lex_serde_bound(g: &proc_macro::Group) -> TokenTree {
+    let inner: Vec<TokenTree> = g.stream().into_iter().collect();
+    let is_serde = matches!(inner.first(), Some(TokenTree::Ident(i)) if i.to_string() == "serde");
+    if !is_serde { return TokenTree::Group(g.clone()); }
+    let mut out: Vec<TokenTree> = vec![];
+    for t in inner {
+        match t {
+            TokenTree::Group(a) => {
+                let args: Vec<TokenTree> = a.stream().into_iter().map(|x| match x {
+                    TokenTree::Literal(l) => {
+                        let txt = l.to_string();
+                        let body = txt.trim_matches('"').to_string();
+                        match body.parse::<TokenStream>() { Ok(ts) => TokenTree::Group(proc_macro::Group::new(Delimiter::Brace, ts)), Err(_) => TokenTree::Literal(l) }
+                    }
+                    o => o,
+                }).collect();
+                out.push(TokenTree::Group(proc_macro::Group::new(a.delimiter(), args.into_iter().collect())));
+            }
+            o => out.push(o),
+        }
+    }
+    TokenTree::Group(proc_macro::Group::new(Delimiter::Bracket, out.into_iter().collect()))
+}
+/// the item headers of an expansion, in order: everything in front of the body of each `enum` and `impl` (doc comments dropped), and the
+/// associated types of the StructDiff impl; type aliases, `use` items and all bodies are left out
+fn split_headers(ts: Vec<TokenTree>, out: &mut Vec<Vec<TokenTree>>) {
+    let mut cur: Vec<TokenTree> = vec![];
+    let mut i = 0;
+    while i < ts.len() {
+        match (&ts[i], ts.get(i + 1)) {
+            (TokenTree::Punct(p), Some(TokenTree::Group(g))) if p.as_char() == '#' && g.delimiter() == Delimiter::Bracket => {
+                let is_doc = matches!(g.stream().into_iter().next(), Some(TokenTree::Ident(id)) if id.to_string() == "doc");
+                if !is_doc { cur.push(ts[i].clone()); cur.push(lex_serde_bound(g)); }
+                i += 2; continue;
+            }
+            (TokenTree::Group(g), _) if g.delimiter() == Delimiter::Brace => {
+                let kind = item_kind(&cur);
+                let inner: Vec<TokenTree> = g.stream().into_iter().collect();
+                if kind == "const" { split_headers(inner, out); }
+                else if kind == "enum" { out.push(cur.clone()); }
+                else if kind == "impl" {
+                    out.push(cur.clone());
+                    if cur.iter().any(|t| matches!(t, TokenTree::Ident(id) if id.to_string() == "StructDiff")) {
+                        let mut piece: Vec<TokenTree> = vec![];
+                        for t in inner {
+                            match &t {
+                                TokenTree::Ident(id) if id.to_string() == "fn" => break,
+                                TokenTree::Punct(p) if p.as_char() == ';' => { if matches!(piece.first(), Some(TokenTree::Ident(id)) if id.to_string() == "type") { out.push(piece.clone()); } piece.clear(); }
+                                _ => piece.push(t),
+                            }
+                        }
+                    }
+                }
+                cur.clear();
+            }
+            (TokenTree::Punct(p), _) if p.as_char() == ';' => cur.clear(),
+            (t, _) => cur.push(t.clone()),
+        }
+        i += 1;
+    }
+}
+
 #[proc_macro_derive(DumpParse, attributes(difference))]
 pub fn dump_parse(input: TokenStream) -> TokenStream {
     let path = match std::env::var("PD_DUMP") { Ok(p) => p, Err(_) => return TokenStream::new() };
@@ -173,6 +253,20 @@ pub fn dump_parse(input: TokenStream) -> TokenStream {
         }
         Ok(Data::Enum(e)) => text.push_str(&format!("ITEM {} PARSED {}\n", sname, enum_text(e))),
         Ok(_) => text.push_str(&format!("ITEM {} PARSED UNION\n", sname)),
+    }
+    if std::env::var("PD_HEADERS").is_ok() {
+        if let Ok(d) = &parsed {
+            text.push_str(&format!("ITEM {} HCFG dbg={} ns={} sd={} gs={}\n", sname, cfg!(feature = "debug_diffs") as u8, cfg!(feature = "nanoserde") as u8, cfg!(feature = "serde") as u8, cfg!(feature = "generated_setters") as u8));
+            match std::panic::catch_unwind(|| difference::expand(d)) {
+                Err(_) => text.push_str(&format!("ITEM {} HDR PANIC\n", sname)),
+                Ok(ts) => {
+                    let mut hs = vec![];
+                    split_headers(ts.into_iter().collect(), &mut hs);
+                    for (k, h) in hs.iter().enumerate() { let mut t = String::new(); tt_text(h, &mut t); text.push_str(&format!("ITEM {} HDR{} {}\n", sname, k, t)); }
+                    text.push_str(&format!("ITEM {} HDRN {}\n", sname, hs.len()));
+                }
+            }
+        }
     }
     match parsed {
         Err(_) => {
